@@ -11,6 +11,7 @@ import SIM.Driver.Json
 import SIM.Driver.Build
 import SIM.Driver.Std
 import SIM.Driver.Derive
+import SIM.Driver.Schema
 open SIM SIM.Driver
 
 def dispatch (stream : String) (toks : List String) : Verdict :=
@@ -27,6 +28,7 @@ def dispatch (stream : String) (toks : List String) : Verdict :=
   | "meta" => runP metaCase toks
   | "tinfo" => runP tinfoCase toks
   | "derive" => runP deriveCase toks
+  | "schema" => runP schemaCase toks
   | _ => .unmodelled ("unknown stream " ++ stream)
 
 partial def loop (h : IO.FS.Stream) (out : IO.FS.Stream) : IO Unit := do
